@@ -254,6 +254,11 @@ class Session:
         for n in ast.walk(ast.Module(body=st.body, type_ignores=[])):
             if isinstance(n, ast.Name) and isinstance(n.ctx, ast.Store):
                 names.add(n.id)
+        # local lists / sets mutated through methods
+        for n in ast.walk(ast.Module(body=st.body, type_ignores=[])):
+            if isinstance(n, ast.Call) and isinstance(n.func, ast.Attribute) and isinstance(n.func.value, ast.Name) \
+                    and n.func.attr in ("append", "add", "remove", "pop", "extend", "insert", "clear", "update", "discard"):
+                names.add(n.func.value.id)
         if isinstance(st, ast.For):
             for n in ast.walk(st.target):
                 if isinstance(n, ast.Name):
@@ -291,6 +296,10 @@ class Session:
 
     def havoc_value(self, interp, nm, cur):
         p = interp.p
+        if getattr(cur, "elem_sort", None) is not None:
+            r = self.hook("havoc_value", interp, nm, cur)
+            if r is not NotImplemented:
+                return r
         if is_bool_like(cur):
             return p.fresh(nm, "bool")
         if is_int_like(cur):
@@ -358,6 +367,12 @@ class Session:
                     if outcome[0] == "return":
                         info["feasible_returns"] += 1
                         res = outcome[1]
+                        if hasattr(contract, "post_hints"):
+                            # instances of already assumed (lemma-)axioms that the solver does not find by
+                            # itself: each is first an obligation, then available for the postconditions
+                            for hi, hf in enumerate(contract.post_hints(A, res)):
+                                p.oblige(f"{short}{vtag}:hint#{hi}", "hint", hf, where, "instance of a background lemma")
+                                p.assume(hf)
                         if hasattr(contract, "split_post"):
                             for cname, g in contract.split_post(A, res).items():
                                 p.oblige(f"{short}{vtag}:post:{cname}", "post", g, where,
